@@ -1,9 +1,9 @@
 package harness
 
 import (
-	"sort"
 	"encoding/binary"
 	"fmt"
+	"sort"
 	"strings"
 	"time"
 
@@ -17,16 +17,16 @@ import (
 func init() {
 	Register(&PropDef{
 		ID: "C05", QuickRuns: 1600, Level: "exploration",
-		Rule: "one run = more attach/detach cycles than the UE pool has addresses (/29 or /30) on the BESS datapath; each cycle: (re-)associate, establish a session with UP-allocated UE address and CHOOSE F-TEIDs, optionally accepted and rejected modifications and an establishment that is rejected after resources were taken, then one ending drawn from {Session Deletion, Association Release, peer silent past the read timeout, heartbeats unanswered, Session Report answered with 'session context not found'}; light datagram loss optional. Oracle after each ending (agent quiescent): no datapath entry carries the session's F-SEID; the pool has all addresses back and the next establishment succeeds; the TEIDs the session was given are no longer marked used; no session record is left; the pfcp_sessions gauge equals the number of live sessions. Non-trivial = at least two endings of different kinds; distinct = different sequence of (ending, pre-history kinds). Also: one RPC of an establishment slower than the plug-in waits (then: no datapath entry of a session that does not exist); on UP4 a Write failing inside the teardown of an association (what the agent holds is returned all the same).",
+		Rule:   "one run = more attach/detach cycles than the UE pool has addresses (/29 or /30) on the BESS datapath; each cycle: (re-)associate, establish a session with UP-allocated UE address and CHOOSE F-TEIDs, optionally accepted and rejected modifications and an establishment that is rejected after resources were taken, then one ending drawn from {Session Deletion, Association Release, peer silent past the read timeout, heartbeats unanswered, Session Report answered with 'session context not found'}; light datagram loss optional. Oracle after each ending (agent quiescent): no datapath entry carries the session's F-SEID; the pool has all addresses back and the next establishment succeeds; the TEIDs the session was given are no longer marked used; no session record is left; the pfcp_sessions gauge equals the number of live sessions. Non-trivial = at least two endings of different kinds; distinct = different sequence of (ending, pre-history kinds). Also: one RPC of an establishment slower than the plug-in waits (then: no datapath entry of a session that does not exist); on UP4 a Write failing inside the teardown of an association (what the agent holds is returned all the same).",
 		Assume: []string{"white-box reads (TEID used map, pool sizes, session records, gauge) go through a bridge file compiled into the scratch copy; they run at quiescence"},
-		Real: CommonReal, Simulated: CommonSim,
+		Real:   CommonReal, Simulated: CommonSim,
 		Scenario: scenarioC05,
 	})
 }
 
 type agentState struct {
 	poolFree, poolHeld, teidsUsed, stored, assocs int
-	gauge                                          float64
+	gauge                                         float64
 }
 
 // probeAgent reads white-box state on an ephemeral goroutine at quiescence.
@@ -393,7 +393,6 @@ func scenarioC05(r *Run) {
 	}
 	r.CheckNoPanics("C05")
 }
-
 
 // scenarioC05UP4 is the P4Runtime side of C05: attach/detach cycles on the UP4
 // datapath with small counter / meter arrays, each session ended one of the
